@@ -178,11 +178,15 @@ class World:
         TS.already_applied = lambda *a, **k: False
         TS.mail_out = lambda *a, **k: None
         TS.automatic = lambda *a, **k: TS.State.SUCCESS
+        World.current = self
         for mod in (API, APP):
+            if hasattr(mod.Process, '_verif_orig_step_0'):
+                continue                                  # instrument once per process
             orig = mod.Process.step_0
+            mod.Process._verif_orig_step_0 = orig
 
-            def step_0(proc, _orig=orig, _mod=mod):
-                world.new_proc = proc
+            def step_0(proc, _orig=orig):
+                World.current.new_proc = proc
                 return _orig(proc)
 
             mod.Process.step_0 = step_0
